@@ -5,6 +5,12 @@ V = "/verif"
 props = [json.loads(l) for l in open(V + "/properties.jsonl")]
 
 CLAIMED = {
+ "C20": dict(
+    text="ORDER/GUARD/PURITY/WHO rules: tune2fs clears EXT2_FLAG_MASTER_SB_ONLY before every changer, resize2fs before the final close, mke2fs's handle never has it, the flag's setters are a listed set; "
+         "e2fsck's end-of-run comparison reads a prescribed backup, compares the feature words, block/inode counts and UUID (ignore masks only run-time bits), is made whenever the fs is valid and writable and its result alone decides the refresh, with nothing re-setting the flag before the flush; "
+         "in ext2fs_flush2 the backup superblock / descriptor writes over all groups are restricted by nothing but the documented flags and the computed locations; writer, reader and checker share ext2fs_bg_has_super; "
+         "the meta_bg descriptor location used when opening from a backup pairs first block and has_super of the same group on every path; opening from a backup clears the UNINIT flags unconditionally. Decides the refresh/write wiring; not the placement arithmetic.",
+    ref="§4 C20", technique="static analysis: dominance, control-dependence purity, who-may-store, path-sensitive symbolic pairing over clang CFGs"),
  "C14": dict(
     text="Static rules over lib/ext2fs/csum.c, the library read/write paths, e2fsck and the journal code: on every read path the verifier is called and, if it keeps failing and checksum errors are not ignored, every return yields the class's error (path-sensitive); "
          "on every write path the setter dominates the device write; verify/set of each class share the compute function, the stored field and the feature gate; each CRC chain starts at the prescribed seed and is threaded through every call, "
